@@ -7,6 +7,7 @@ LitVectors/Literals (as<bool|Index|double|vectors>)."""
 import glob
 import json
 import os
+import re
 import shutil
 import xml.etree.ElementTree as ET
 from fractions import Fraction
@@ -138,6 +139,18 @@ def classify_msg(msg):
     return "other"
 
 
+def named_options(msg):
+    """the option(s) an error text names: the last path component / the quoted name of the three
+    message forms of optionshandler.cc, else every word of the text"""
+    for lead in ("has no option:", "specify an input for:"):
+        if lead in msg:
+            return {msg.split(lead, 1)[1].strip().split(".")[-1]}
+    m = re.search(r'input value for "([^"]*)"', msg)
+    if m:
+        return {m.group(1)}
+    return set(re.findall(r"[A-Za-z0-9_+-]+", msg))
+
+
 def judge_process(exp, lines):
     """returns None or (key, text)"""
     tree = first(lines, "tree")
@@ -153,7 +166,7 @@ def judge_process(exp, lines):
                 return ("ProcessUserInput:unchecked-section:rejected",
                         "keys below a section declared unchecked are rejected: %r" % msg)
             return ("ProcessUserInput:spurious-rejection:" + kind, "valid input rejected: %r" % msg)
-        if not any(n in msg for (_, n) in errs + maybe):
+        if not (named_options(msg) & set(n for (_, n) in errs + maybe)):
             return ("ProcessUserInput:error-not-naming:" + "+".join(sorted(set(e for e, _ in errs))),
                     "error %r names none of %s" % (msg, errs + maybe))
         return None
@@ -401,7 +414,7 @@ def part_proptree(ctx, exe, work):
     vlib.tlc_must_hold(res, "PropTree invariants (last wins, Select/get agreement, postconditions)")
     ctx.add_tlc(mod, res)
     hists += res.records
-    nsim = 6 if ctx.quick else 300
+    nsim = 4 if ctx.quick else 60
     res = vlib.tlc("proptree", "MCTreeSim", cfg="MCTreeSim.cfg", timeout=3000, simulate=nsim, depth=8, workers=4,
                    seed=ctx.seed)
     vlib.tlc_must_hold(res, "PropTree simulation")
@@ -640,7 +653,7 @@ def run(ctx):
     ctx.assumptions += [
         "shipped descriptions are read by python's ElementTree (independent of Property::LoadFromXML); the spec "
         "ASSUMEs on them: links resolvable, list sections carry OPTIONAL/REQUIRED with distinct tags, unchecked nodes childless",
-        "an error 'names' an option when the exception text contains the option's tag name",
+        "an error 'names' an option when the tag name is the last path component / the quoted name in the exception text",
         "literal forms the documentation does not settle are admitted either way (see MANIFEST note)",
         "driver compiles optionshandler.cc/property.cc/tokenizer.cc with assertions, ASan and UBSan"]
     try:
